@@ -40,7 +40,8 @@
 #[cfg(not(sighook_verif))]
 use std::cell::UnsafeCell;
 #[cfg(sighook_verif)]
-use signal_hook_registry::verif_shim::cell::UnsafeCell;
+#[allow(unused_imports)]
+use signal_hook_registry::verif_shim::cell::*;
 #[cfg(not(sighook_verif))]
 use std::sync::atomic::{AtomicU16, Ordering};
 #[cfg(sighook_verif)]
